@@ -51,6 +51,15 @@ func cmdC02(r *RNG, n int, e *Emitter, args []string) {
 			fr = []clip.FillRule{clip.EvenOdd, clip.EvenOdd, clip.NonZero}[r.Intn(3)]
 			info = GenInfo{Kinds: []string{"nested-mixed"}}
 		}
+		if i%6 == 2 {
+			// tie-heavy lattice polygons: crossings exactly on scanlines, shared vertices, collinear tops
+			s, c = genLatticeScaled(r)
+			info = GenInfo{Kinds: []string{"lattice-scaled"}}
+		}
+		if i%6 == 1 && i%12 == 1 {
+			s, c = insertCollinear(r, s), insertCollinear(r, c)
+			info.Kinds = append(info.Kinds, "collinear-runs")
+		}
 		emitC02(e, fmt.Sprint(i), s, c, ct, fr, r.Intn(3) == 0, r.Intn(3) != 0, info)
 	}
 }
